@@ -52,7 +52,7 @@ func Main(c *run.Ctx) {
 		if fpt == 0 {
 			n = nsets / 4
 		}
-		out := c.RunChild(run.ChildSpec{Prop: "C04", Name: "fp", Cfg: childCfg{Mode: "fp", FPType: fpt, N: n}, Timeout: 15 * time.Minute})
+		out := c.RunChild(run.ChildSpec{Prop: "C04", Name: "fp", Cfg: childCfg{Mode: "fp", FPType: fpt, N: n}, Timeout: 45 * time.Minute})
 		childEnd(c, out, "fp")
 	}
 	zones := []string{"UTC", "America/New_York", "Asia/Tokyo"}
@@ -68,7 +68,7 @@ func Main(c *run.Ctx) {
 			{DBTimer: 0.003, RetryAttempts: 1, ChannelsSample: 2, ChannelsTimeSeries: 1, ClusterName: "cl"},
 		} {
 			cc := childCfg{Mode: "history", Writer: wc, TZ: tz, Histories: hist, Start: k * hist}
-			out := c.RunChild(run.ChildSpec{Prop: "C04", Name: "history", Cfg: cc, Env: []string{"TZ=" + tz}, Timeout: 15 * time.Minute})
+			out := c.RunChild(run.ChildSpec{Prop: "C04", Name: "history", Cfg: cc, Env: []string{"TZ=" + tz}, Timeout: 45 * time.Minute})
 			childEnd(c, out, "history/"+tz)
 			k++
 		}
